@@ -1,5 +1,6 @@
 import CppUModel.Base.Proto
 import CppUModel.Model.Runner
+import CppUModel.Model.RunnerCode
 import CppUModel.Spec.Runner
 /-!
 Driver for C01.
@@ -29,6 +30,9 @@ structure Prog where
   color       : Bool := false
   rethrow     : Bool := false
   separate    : Bool := false
+  env         : Option Bool := none   -- `env` op: what setWorkingEnvironment stored (none = detect, some true = visualStudio)
+  composite   : Bool := false         -- `composite` op: -ojunit with -v: CompositeTestOutput
+  realio      : Bool := false         -- `realio` op: real stdout (a pipe), bytes observed
   groupFilters : List Filter := []
   nameFilters  : List Filter := []
   plugins     : List Plugin := []              -- in op order; the chain is the reverse
@@ -58,6 +62,9 @@ def clockOfObs (obs : List (List String)) : List Nat :=
   obs.filterMap fun l => match l with
     | ["clock", v] => v.toNat?
     | _ => none
+
+/-- is the failure location printed in the Visual Studio form?  (regenerated: what the platform detects) -/
+def Prog.vs (p : Prog) : Bool := envIsVisualStudio p.env
 
 def Prog.chain (p : Prog) : List Plugin := p.plugins.reverse
 
@@ -187,6 +194,9 @@ def applyOp (p : Prog) (op : List String) (obs : List (List String)) : Prog :=
     { p with tests := p.tests ++ [(label, { group := g, name := n, file := fileTable.getD (f.toNat?.getD 3) "x",
                                             line := l.toNat?.getD 0, ignored := ig == "1",
                                             setup := [], body := [], teardown := [] }, [])] }
+  | ["env", e] => { p with env := if e = "vs" then some true else if e = "eclipse" then some false else none }
+  | ["composite"] => { p with composite := true }
+  | ["realio"] => { p with realio := true }
   | "s" :: label :: ph :: rest =>
     { p with tests := p.tests.map fun (lb, t, lines) =>
         if lb = label then (lb, t, lines ++ [(ph, rest)]) else (lb, t, lines) }
@@ -205,14 +215,14 @@ def curName : Option String → String
 
 def tokLine (s : String) : String := "t " ++ hexOfStr s
 
-def renderEv (color : Bool) : Ev → List String
+def renderEv (vs color : Bool) : Ev → List String
   | .tok s => [tokLine s]
   | .clock v => [s!"clock {v}"]
   | .enter ph d => [s!"enter {phaseName ph} {d}"]
   | .mark ph n d => [s!"mark {phaseName ph} {n} {d}"]
   | .plug name post d => [s!"plug {name} {if post then "post" else "pre"} {d}"]
-  | .failure r => (failureToks r).map tokLine
-  | .sepFailure r => (failureToks r).map tokLine
+  | .failure r => (failureToksGen vs r).map tokLine           -- the regenerated print sequences
+  | .sepFailure r => (failureToksGen vs r).map tokLine
   | .ended d c f => [s!"ended {d} {curName c} {if f then 1 else 0}"]
   | .summary r time => (summaryToks color r time).map tokLine
   | .ret v => [s!"ret {v}"]
@@ -227,12 +237,30 @@ def kindName : ExcKind → String
   | .std => "std"
   | .other => "other"
 
+/-- every string the console output receives, in order -/
+def consoleStrings (p : Prog) (evs : List Ev) : List String :=
+  evs.flatMap fun e => match e with
+    | .tok s => [s]
+    | .failure r => failureToksGen p.vs r
+    | .sepFailure r => failureToksGen p.vs r
+    | .summary r time => summaryToks p.color r time
+    | _ => []
+
+def hexOrDash (s : String) : String := if s.isEmpty then "-" else hexOfStr s
+
 def modelRun (p : Prog) (clock : List Nat) : List String :=
   match runAllTests (p.cfg clock) p.chain p.testList (repeatCountOf p.rep) 0 with
   | .error (.fault f) => ["model-fault " ++ faultText f]
   | .error (.propagated q) =>
-    q.evs.flatMap (renderEv p.color) ++ [s!"propagated {kindName q.kind}", s!"final {q.depth} {curName q.current}"]
-  | .ok o => o.evs.flatMap (renderEv p.color) ++ [s!"final {o.depth} {curName o.current}"]
+    q.evs.flatMap (renderEv p.vs p.color) ++ [s!"propagated {kindName q.kind}", s!"final {q.depth} {curName q.current}"]
+  | .ok o =>
+    if p.realio then
+      -- the bytes on the real stdout: every printed string (each print is flushed, also in the children of -p)
+      ["out " ++ hexOrDash (String.join ((consolePrintAll {} (consoleStrings p o.evs)).afterExit)),
+       s!"ret {o.ret}", s!"final {o.depth} {curName o.current}"]
+    else
+      o.evs.flatMap (renderEv p.vs p.color) ++ [s!"final {o.depth} {curName o.current}"] ++
+        (if p.composite then (consoleStrings p o.evs).map (fun s => "u " ++ hexOfStr s) else [])
 
 def modelStep (p : Prog) (op : List String) (obs : List (List String)) : Prog × List String :=
   match op with
@@ -257,6 +285,8 @@ inductive Item
   | propagated (kind : String)
   | final (depth : Int) (cur : String)
   | crash (what : String)
+  | tokOne (s : String)            -- composite: a string output one received
+  | out (bytes : String)           -- realio: the bytes on the real stdout
   | other
 deriving Repr, Inhabited
 
@@ -270,6 +300,8 @@ def itemOf : List String → Item
   | ["propagated", k] => .propagated k
   | ["final", d, c] => .final (d.toInt?.getD (-999)) c
   | "crash" :: rest => .crash (" ".intercalate rest)
+  | ["u", h] => .tokOne (strOfHex h)
+  | ["out", h] => .out (strOfHex h)
   | _ => .other
 
 /-- split the items at the `ended` lines: segments before each `ended`, the `ended` data, the tail -/
@@ -291,13 +323,17 @@ def showPrinted (p : Printed) : String :=
 
 def showList (l : List String) : String := "[" ++ ", ".intercalate l ++ "]"
 
+/-- the reader for the working environment of the run -/
+def scanFailuresEnv (vs : Bool) (toks : List String) : List Printed :=
+  if vs then scanFailuresVS toks else scanFailures toks
+
 /-- one test segment against what the property demands of that test -/
-def judgeTest (cfg : Cfg) (chain : List Plugin) (t : Test) (seg : List Item) (e : Int × String × Bool) :
+def judgeTest (vs : Bool) (cfg : Cfg) (chain : List Plugin) (t : Test) (seg : List Item) (e : Int × String × Bool) :
     Option String :=
   let wantEnters := (phasesRun cfg t).map phaseName
   let wantMarks := (testMarks cfg t).map fun (ph, n) => (phaseName ph, n)
   let wantFails := (testRecords cfg chain t).map FailRec.printed
-  let gotFails := scanFailures (toksOfItems seg)
+  let gotFails := scanFailuresEnv vs (toksOfItems seg)
   let who := s!"{formattedName cfg t}"
   if willRun cfg t then
     if entersOfItems seg != wantEnters then
@@ -339,7 +375,7 @@ def expectedTimes (items : List Item) : List String := Id.run do
   return out.toList
 
 /-- rethrow mode, a selected test lets a std / foreign exception out: the run must end there -/
-def judgePropagation (cfg : Cfg) (chain : List Plugin) (sel : List Test) (k : Nat) (items : List Item) :
+def judgePropagation (vs : Bool) (cfg : Cfg) (chain : List Plugin) (sel : List Test) (k : Nat) (items : List Item) :
     Option String := Id.run do
   let (segs, tail) := splitEnded items [] []
   let t := sel.getD k default
@@ -349,12 +385,12 @@ def judgePropagation (cfg : Cfg) (chain : List Plugin) (sel : List Test) (k : Na
     return some s!"rethrow mode: {segs.length} tests completed before the exception of {who} left the run, {k} precede it"
   let mut i := 0
   for (seg, e) in segs do
-    if let some why := judgeTest cfg chain (sel.getD i default) seg e then return some s!"rethrow mode: {why}"
+    if let some why := judgeTest vs cfg chain (sel.getD i default) seg e then return some s!"rethrow mode: {why}"
     i := i + 1
   let wantEnters := (phasesUpTo cfg t ph).map phaseName
   let wantMarks := (marksUpTo cfg t ph).map fun (q, n) => (phaseName q, n)
   let wantFails := (failuresUpTo cfg chain t ph).map FailRec.printed
-  let gotFails := scanFailures (toksOfItems tail)
+  let gotFails := scanFailuresEnv vs (toksOfItems tail)
   if entersOfItems tail != wantEnters then
     return some s!"rethrow mode, {who}: phases entered {showList (entersOfItems tail)}, expected {showList wantEnters} (nothing runs after the exception left the test)"
   if marksOfItems tail != wantMarks then
@@ -369,6 +405,64 @@ def judgePropagation (cfg : Cfg) (chain : List Plugin) (sel : List Test) (k : Na
   if !(scanSummaries (toksOfItems items)).isEmpty then return some "rethrow mode: a summary was printed although an exception left the run"
   return none
 
+/-! ### the byte stream of the real-I/O sub-mode -/
+
+def stripEsc (s : String) : String :=
+  ((s.replace "\x1b[31;1m" "").replace "\x1b[32;1m" "").replace "\x1b[m" ""
+
+def isLocLine (l : String) : Bool := (l.splitOn " error:").length > 1
+
+/-- the location lines of the text, each last one of a record with the line that follows it -/
+def recordLines : List String → List String
+  | [] => []
+  | l :: rest =>
+    if isLocLine l then
+      l :: (match rest with
+            | nx :: _ => if isLocLine nx then [] else [nx]
+            | [] => []) ++ recordLines rest
+    else recordLines rest
+
+def locText (vs : Bool) (file : String) (line : Nat) : String :=
+  if vs then s!"{file}({line}): error:" else s!"{file}:{line}: error:"
+
+/-- the lines a reader of the console text must find for one failure record: where it happened (for a failure
+    outside the test's file / above the test: the test's location first), and the first line of its message -/
+def wantLines (vs : Bool) (r : FailRec) : List String :=
+  (if r.twoLocations then [locText vs r.testFile r.testLine ++ " Failure in " ++ r.testName, locText vs r.file r.line]
+   else [locText vs r.file r.line ++ " Failure in " ++ r.testName]) ++ ["\t" ++ ((r.msg.splitOn "\n").headD "")]
+
+def summaryText (s : PrintedSummary) : String :=
+  (if s.ok then "OK (" else "Errors (" ++ (match s.failures with | some f => f ++ " failures, " | none => "ran nothing, ")) ++
+    s!"{s.tests} tests, {s.ran} ran, {s.checks} checks, {s.ignored} ignored, {s.filtered} filtered out, {s.time} ms)"
+
+/-- real stdout: every failing event once, in order, with its file:line; one true summary per repetition;
+    return value zero iff fine — read from the BYTES that reached the pipe -/
+def judgeRealIo (p : Prog) (cfg : Cfg) (items : List Item) : Option String := Id.run do
+  let chain := p.chain
+  let tests := p.testList
+  let n := repeatCountOf p.rep
+  let outs := items.filterMap fun | .out b => some b | _ => none
+  let some text := outs.head? | return some "real stdout: no output observed"
+  let lines := (stripEsc text).splitOn "\n"
+  let want := ((List.replicate n (expectedRecords cfg chain tests)).flatten).flatMap (wantLines p.vs)
+  let got := recordLines lines
+  if got != want then
+    return some s!"printed failure records on the real stdout (location lines and first message line) {showList got}, failing events are {showList want} (each exactly once, in order, with its own file:line)"
+  let wantSum := (expectedCounts cfg chain tests).printedSummary 0
+  let sums := lines.filter fun l => l.startsWith "OK (" || l.startsWith "Errors ("
+  if sums != List.replicate n (summaryText wantSum) then
+    return some s!"summary printed on the real stdout: {showList sums}; true counts: {summaryText wantSum} for each of {n} repetition(s)"
+  let rets := items.filterMap fun | .ret v => some v | _ => none
+  let finals := items.filterMap fun | .final d c => some (d, c) | _ => none
+  match rets, finals with
+  | [v], [(d, c)] =>
+    if (v == 0) != decide wantSum.ok then
+      return some s!"runner returned {v}; the repetitions {if wantSum.ok then "have" else "do not have"} a clean verdict"
+    if d != 0 then return some s!"jump-buffer depth after the run is {d}"
+    if c != "-" then return some s!"current test after the run is {c}"
+    return none
+  | _, _ => return some "the runner did not return (no `ret`/`final` line)"
+
 def judgeRun (p : Prog) (obs : List (List String)) : Option String := Id.run do
   let cfg := p.cfg (clockOfObs obs)
   let chain := p.chain
@@ -377,11 +471,22 @@ def judgeRun (p : Prog) (obs : List (List String)) : Option String := Id.run do
   let items := obs.map itemOf
   for it in items do
     if let .crash w := it then return some s!"the runner crashed: {w}"
+  if p.realio then return judgeRealIo p cfg items
+  if p.composite then
+    -- output ONE of the composite must have received what the console received: every failing event once, one summary per repetition
+    let one := items.filterMap fun | .tokOne s => some s | _ => none
+    let wantRecs := ((List.replicate n (expectedRecords cfg chain tests)).flatten).map FailRec.printed
+    if scanFailuresEnv p.vs one != wantRecs then
+      return some s!"printed failure records received by output one of the composite {showList ((scanFailuresEnv p.vs one).map showPrinted)}, failing events are {showList (wantRecs.map showPrinted)} (each failure once per attached output)"
+    let wantS := (expectedCounts cfg chain tests).printedSummary 0
+    let gotS := (scanSummaries one).map fun s => { s with time := wantS.time }
+    if gotS != List.replicate n wantS then
+      return some s!"summary line(s) received by output one of the composite: {showList (gotS.map showSummary)}; true counts: {showSummary wantS} per repetition"
   let sel := selected cfg tests
   let m := sel.length
   if cfg.rethrow && cfg.exceptions then
     if let some k := sel.findIdx? (fun t => willRun cfg t && (firstThrow cfg t).isSome) then
-      return judgePropagation cfg chain sel k items
+      return judgePropagation p.vs cfg chain sel k items
   if items.any (fun | .propagated _ => true | _ => false) then
     return some "an exception left the runner although no test lets one out in rethrow mode"
   let (segs, tail) := splitEnded items [] []
@@ -391,14 +496,14 @@ def judgeRun (p : Prog) (obs : List (List String)) : Option String := Id.run do
   let mut k := 0
   for (seg, e) in segs do
     let t := sel.getD (k % m) default
-    if let some why := judgeTest cfg chain t seg e then
+    if let some why := judgeTest p.vs cfg chain t seg e then
       return some s!"repetition {k / m + 1}: {why}"
     -- the summary of the previous repetition is printed before the first test of the next one
     let wantSum := if k > 0 && k % m == 0 then 1 else 0
     if (scanSummaries (toksOfItems seg)).length != wantSum then
       return some s!"repetition {k / m + 1}: {(scanSummaries (toksOfItems seg)).length} summary line(s) printed before test {k % m + 1}"
     k := k + 1
-  if !(entersOfItems tail).isEmpty || !(marksOfItems tail).isEmpty || !(scanFailures (toksOfItems tail)).isEmpty then
+  if !(entersOfItems tail).isEmpty || !(marksOfItems tail).isEmpty || !(scanFailuresEnv p.vs (toksOfItems tail)).isEmpty then
     return some "statements executed or failures printed after the last test ended"
   -- summaries
   let sums := scanSummaries (toksOfItems items)
